@@ -147,6 +147,8 @@ def parseOp (n : Names) : Nat → List String → Option (Op × List String)
       body rest (fun p => .withCg (n.valOf u) (Prog.ofList [.call (.other (n.valOf u)) 1 1 (Prog.ofList [.call (.other (n.valOf o)) 0 0 p])]))
     -- call_heart_beat: heart_beat () { run (); } of an object without commands enabled
     | "behb" :: o :: rest => body rest (fun p => .heartBeat (n.valOf o) 0 (Prog.ofList [.call .local_ 0 0 p]))
+    -- … of an object WITH commands enabled: it is the command giver of its heart beat
+    | "behbc" :: o :: rest => body rest (fun p => .heartBeat (n.valOf o) (n.valOf o) (Prog.ofList [.call .local_ 0 0 p]))
     -- look_for_objects_to_swap: its own recovery point; reset_object: command_giver = 0 around apply (reset, 0 arguments)
     | "bereset" :: _o :: rest => body rest (fun p => .withCg 0 (Prog.ofList [.safeApply 0 0 (Prog.ofList [.call .local_ 0 0 p])]))
     -- look_for_objects_to_swap: push_number; apply (clean_up, 1 argument)
